@@ -114,7 +114,7 @@ claim("C15", "E4+E3",
 
 claim("C13", "E7+E4+E5",
       "static analysis: context-sensitive forward dataflow over MIR of the recursive-descent parser (abstract token-kind sets evaluated from the TokenSet constants, path-sensitive on eat/expect/matches results, closures and fn items bound per call site; greatest-fixpoint summaries) deciding per-loop token consumption and feasibility of assertion failures; plus guard dominance / data-flow of the include-validation result, field-write ownership, must-call pairing and a diagnostic-range provenance rule",
-      "Static decision of these clauses of C13: (G1) TERMINATION of the parser proper (parser.rs, grammar/*): every trip round each of its 38 loops "
+      "Static decision of these clauses of C13: (G4) validation does not call the typed-AST accessors that unwrap a parse of the token TEXT (a NUMBER has any length): nine call-site keys are KNOWN findings (reproduced: `UnicodeRange 40000;`, a CID above 65535 and `parameters 10 40000;` panic in validation), a new one is a violation; (G1) TERMINATION of the parser proper (parser.rs, grammar/*): every trip round each of its 38 loops "
       "consumes at least one non-EOF lexeme (4 are std-iterator loops, one path is an audited exception with a re-checked witness), so no error-recovery "
       "path can spin, and the same engine proves the 8 loops of the contextual-rule rewriter (token_tree::rewrite); this found two real hangs (`@a = [; - b];`, `anchorDef (wght=200:5 longident) 5 foo;`), both repaired. (G2) NO PANIC in the same "
       "modules: of 118 assertion / unwrap / index / overflow sites, 67 are infeasible given the token facts on every path reaching them, 10 are "
